@@ -231,3 +231,144 @@ func VC18_Equal() {
 	vf.Reach("equal")
 	vf.Assert(m.s.Equal(o) == want, m.lab("set-equal-differs-from-model"))
 }
+
+// Synchronized set under concurrency: two goroutines x two operations each.
+// The return values and the final contents must be explained by some
+// interleaving of the two programs run against the reference (atomicity of
+// each operation, not just freedom from data races).
+type vc18op struct {
+	kind int // 0 AddCheck, 1 DeleteCheck, 2 Check, 3 Len
+	v    int
+	ret  int // bool as 0/1, or Len
+}
+
+func vc18apply(m *vc18m, o vc18op) int {
+	b := func(x bool) int {
+		if x {
+			return 1
+		}
+		return 0
+	}
+	switch o.kind {
+	case 0:
+		return b(m.add(o.v))
+	case 1:
+		return b(m.del(o.v))
+	case 2:
+		return b(m.has(o.v))
+	}
+	return len(m.order)
+}
+
+func VC18_Sync() {
+	s := &Set[int]{}
+	ordered := vf.Choice("ordered", 2) == 1
+	if ordered {
+		s.Order()
+	}
+	s.Synchronize()
+	pre := vf.Choice("prefilled", 2) == 1
+	if pre {
+		s.Add(1)
+	}
+	var progs [2][]vc18op
+	for g := 0; g < 2; g++ {
+		n := 2
+		for i := 0; i < n; i++ {
+			progs[g] = append(progs[g], vc18op{kind: vf.Choice("op", 4), v: vf.Choice("val", 2)})
+		}
+	}
+	for g := 0; g < 2; g++ {
+		g := g
+		vf.Go(func() {
+			for i := range progs[g] {
+				o := &progs[g][i]
+				switch o.kind {
+				case 0:
+					if s.AddCheck(o.v) {
+						o.ret = 1
+					}
+				case 1:
+					if s.DeleteCheck(o.v) {
+						o.ret = 1
+					}
+				case 2:
+					if s.Check(o.v) {
+						o.ret = 1
+					}
+				case 3:
+					o.ret = s.Len()
+				}
+			}
+		})
+	}
+	vf.Quiesce()
+	vf.Reach("sync-quiescent")
+	// final observation
+	ctx := context.Background()
+	var got []int
+	it := s.Iterator()
+	for len(got) <= 4 && it.Next(ctx) {
+		got = append(got, it.Value())
+	}
+	_ = it.Close()
+	flen := s.Len()
+	explained := false
+	// interleavings: masks with two bits set out of four = positions of goroutine 1's ops
+	for mask := 0; mask < 16 && !explained; mask++ {
+		bits := 0
+		for b := 0; b < 4; b++ {
+			if mask&(1<<b) != 0 {
+				bits++
+			}
+		}
+		if bits != 2 {
+			continue
+		}
+		m := &vc18m{ordered: ordered}
+		if pre {
+			m.add(1)
+		}
+		idx := [2]int{}
+		ok := true
+		for b := 0; b < 4 && ok; b++ {
+			g := 0
+			if mask&(1<<b) != 0 {
+				g = 1
+			}
+			o := progs[g][idx[g]]
+			idx[g]++
+			if vc18apply(m, o) != o.ret {
+				ok = false
+			}
+		}
+		if !ok || flen != len(m.order) || len(got) != len(m.order) {
+			continue
+		}
+		same := true
+		if ordered {
+			for i := range got {
+				if got[i] != m.order[i] {
+					same = false
+				}
+			}
+		} else {
+			for _, x := range got {
+				if !m.has(x) {
+					same = false
+				}
+			}
+			for i := range got {
+				for j := i + 1; j < len(got); j++ {
+					if got[i] == got[j] {
+						same = false
+					}
+				}
+			}
+		}
+		if same {
+			explained = true
+		}
+	}
+	vf.Assert(explained, "synchronized-set-history-not-explained-by-any-interleaving")
+}
